@@ -587,7 +587,11 @@ def _size(rng, cfg, budget):
     if r < 0.45:
         return 1
     if r < cfg.big_prob + 0.45:
-        return rng.randint(cfg.size_max // 2, cfg.size_max)
+        # "large" containers only at the outermost level of a value: nested large containers
+        # multiply (2000^3 nodes) without exploring anything new
+        if budget >= 3:
+            return rng.randint(cfg.size_max // 2, cfg.size_max)
+        return rng.randint(5, 12)
     return rng.randint(2, 5)
 
 
